@@ -85,8 +85,8 @@ P("C07", ["ESC", "NITOFF", "SIB", "CBUSE", "CNT", "FIELDS", "ORIENT", "DOWNHILL"
   "restored into the wrapper from the right fields before any evaluation, (FIELDS) writer/reader field agreement, "
   "(ORIENT) the history decoder inverts the encoder.",
   "numerical equality of the continuation with the uninterrupted run", design="3/C07")
-P("C08", ["IDX", "SIGN", "PIN", "CPFORM", "RATIOFORM", "BFGSFORM", "OWN", "INVMFORM", "BPWALK", "INVMSYM", "USEFACT", "BPVAL"],
-  "(BPVAL) every store into the breakpoint vector writes a breakpoint ((x - bound)/g, or inf where g = 0): no floor, snap or cap moves the point of the projected path where a variable meets its bound; (USEFACT) a non-empty memory is never mistaken for an empty one (exact test in use_factor); (INVMSYM) the two triangular factors multiply to the inverse middle matrix of the stored pairs, and bmv applies them in the right order; (BPWALK) the breakpoint walk skips variables already on a bound, stops as soon as the segment holds its minimiser and examines the breakpoints in sorted order; (INVMFORM) the factors of the middle matrix are computed from D, L, S'S, theta by exact algebra (no floor or clamp); (BFGSFORM) the model handed to the kernel is the consistent compact form, (OWN) the kernel does not write the model it is given; (IDX) index-space typing of the breakpoint bookkeeping (the property's named defect); (SIGN) breakpoints "
+P("C08", ["IDX", "SIGN", "PIN", "CPFORM", "RATIOFORM", "BFGSFORM", "OWN", "INVMFORM", "BPWALK", "INVMSYM", "USEFACT", "BPVAL", "F2FLOOR"],
+  "(F2FLOOR) the curvature along the path is floored at machine precision times its initial value, as in Algorithm 778, so that the auxiliary vector stays W'(x_cp - x) when only zero-gradient variables remain free; (BPVAL) every store into the breakpoint vector writes a breakpoint ((x - bound)/g, or inf where g = 0): no floor, snap or cap moves the point of the projected path where a variable meets its bound; (USEFACT) a non-empty memory is never mistaken for an empty one (exact test in use_factor); (INVMSYM) the two triangular factors multiply to the inverse middle matrix of the stored pairs, and bmv applies them in the right order; (BPWALK) the breakpoint walk skips variables already on a bound, stops as soon as the segment holds its minimiser and examines the breakpoints in sorted order; (INVMFORM) the factors of the middle matrix are computed from D, L, S'S, theta by exact algebra (no floor or clamp); (BFGSFORM) the model handed to the kernel is the consistent compact form, (OWN) the kernel does not write the model it is given; (IDX) index-space typing of the breakpoint bookkeeping (the property's named defect); (SIGN) breakpoints "
   "t >= 0 on both branches, pinned bound on the side of d, f' <= 0, f'' >= 0 at their definitions; (PIN) "
   "variables reaching a bound are pinned by copying the bound, not by arithmetic; (CPFORM) the initialisation, "
   "the per-breakpoint updates of c, f', f'', p, dt_min and the final segment are symbolically executed into a "
@@ -95,8 +95,8 @@ P("C08", ["IDX", "SIGN", "PIN", "CPFORM", "RATIOFORM", "BFGSFORM", "OWN", "INVMF
   "floating-point error of these formulas; that the loop visits breakpoints until the first local minimiser "
   "(control structure beyond IDX); model decrease as a numerical fact",
   design="3/C08")
-P("C09", ["SIGN", "ALPHA", "FREE", "RATIOFORM", "SUBFORM", "KFACT", "SHARED", "OWN", "KFORM", "KSOLVE", "BFGSFORM", "INVMFORM", "INVMSYM", "SCALEPOS", "USEFACT"],
-  "(USEFACT) a non-empty memory is never mistaken for an empty one (exact test in use_factor); (SCALEPOS) the scaling factor is positive, so the direction is a descent direction of the user's objective too; (INVMSYM) the two triangular factors multiply to the inverse middle matrix of the stored pairs, and bmv applies them in the right order; (INVMFORM) the factors of the middle matrix are computed from D, L, S'S, theta by exact algebra (no floor or clamp); (BFGSFORM) the matrices W, M, theta the subspace step uses are those of the stored pairs; (KSOLVE) the reduced system is solved as LK^-T E LK^-1 with E = diag(-I, I), with the factor of this call; (KFORM) the four blocks of K are -D - Y'ZZ'Y/theta, L_A - R_Z, its transpose and theta S'AA'S, decided in an algebra of triangular parts; (KFACT) the LEL^T factor of K has the reference block form on its only non-trivial path, (SHARED, OWN; conservative) the kernel keeps no state between calls and does not write its inputs; The three places where the subspace step touches the box: (SIGN) truncation ratios non-negative on both "
+P("C09", ["SIGN", "ALPHA", "FREE", "RATIOFORM", "SUBFORM", "KFACT", "SHARED", "OWN", "KFORM", "KSOLVE", "BFGSFORM", "INVMFORM", "INVMSYM", "SCALEPOS", "USEFACT", "F2FLOOR"],
+  "(F2FLOOR) the curvature along the path is floored at machine precision times its initial value, as in Algorithm 778, so that the auxiliary vector stays W'(x_cp - x) when only zero-gradient variables remain free; (USEFACT) a non-empty memory is never mistaken for an empty one (exact test in use_factor); (SCALEPOS) the scaling factor is positive, so the direction is a descent direction of the user's objective too; (INVMSYM) the two triangular factors multiply to the inverse middle matrix of the stored pairs, and bmv applies them in the right order; (INVMFORM) the factors of the middle matrix are computed from D, L, S'S, theta by exact algebra (no floor or clamp); (BFGSFORM) the matrices W, M, theta the subspace step uses are those of the stored pairs; (KSOLVE) the reduced system is solved as LK^-T E LK^-1 with E = diag(-I, I), with the factor of this call; (KFORM) the four blocks of K are -D - Y'ZZ'Y/theta, L_A - R_Z, its transpose and theta S'AA'S, decided in an algebra of triangular parts; (KFACT) the LEL^T factor of K has the reference block form on its only non-trivial path, (SHARED, OWN; conservative) the kernel keeps no state between calls and does not write its inputs; The three places where the subspace step touches the box: (SIGN) truncation ratios non-negative on both "
   "branches; (ALPHA) the truncation factor is min(1, nonneg) and multiplies the whole step once; (FREE) free set = "
   "strictly interior variables of the Cauchy point, active set its complement, step enters only through Z; "
   "(RATIOFORM) ratios are (bound - x_c)/dHat; (SUBFORM) reduced gradient r = g + theta(x_c - x) - W M c and step "
@@ -117,8 +117,8 @@ P("C11", ["BOX", "DOWNHILL", "LSBUD", "SIGN", "RATIOFORM", "FDB", "LSPROTO", "EV
   "evaluation per loop iteration, counter guard `< max_iter`, SciPy's DCSRCH._iterate calls no user function "
   "(checked on SciPy's source); (SIGN) the maximum step is non-negative.",
   "step in (0, stpmax] inside SciPy's DCSRCH (trusted contract)", design="3/C11")
-P("C12", ["CONST", "BIND", "ARGNAME", "DIRECTION", "OFFER", "STEPINIT", "BFGSFORM", "CPFORM", "ESC", "SF4", "NITOFF", "ORIENT", "FILTERWALK", "LSPROTO", "SF1", "STPCAP"],
-  "(STPCAP) the step cap given to DCSRCH is max_allowed_steplength(..) and nothing else (single reaching definition), so the trial steps are those of the reference; (SF1) the wrapper serves a stored value only for exactly the point it was computed at, so the values the line search interpolates are those of the trial points of the reference run; (LSPROTO) DCSRCH is driven as in Algorithm 778: the step it returned is fed back with the value and slope evaluated at that step, FG means evaluate, anything else ends the search; (FILTERWALK) with an update function installed the curvature filter visits every stored point (an identity hook must not change the run); (ORIENT) a run continued through a checkpoint restores the pairs in order; (CONST) the evaluated defaults of the line-search / curvature constants equal those of Algorithm 778 at every "
+P("C12", ["CONST", "BIND", "ARGNAME", "DIRECTION", "OFFER", "STEPINIT", "BFGSFORM", "CPFORM", "ESC", "SF4", "NITOFF", "ORIENT", "FILTERWALK", "LSPROTO", "SF1", "STPCAP", "F2FLOOR"],
+  "(F2FLOOR) the curvature along the path is floored at machine precision times its initial value, as in Algorithm 778, so that the auxiliary vector stays W'(x_cp - x) when only zero-gradient variables remain free; (STPCAP) the step cap given to DCSRCH is max_allowed_steplength(..) and nothing else (single reaching definition), so the trial steps are those of the reference; (SF1) the wrapper serves a stored value only for exactly the point it was computed at, so the values the line search interpolates are those of the trial points of the reference run; (LSPROTO) DCSRCH is driven as in Algorithm 778: the step it returned is fed back with the value and slope evaluated at that step, FG means evaluate, anything else ends the search; (FILTERWALK) with an update function installed the curvature filter visits every stored point (an identity hook must not change the run); (ORIENT) a run continued through a checkpoint restores the pairs in order; (CONST) the evaluated defaults of the line-search / curvature constants equal those of Algorithm 778 at every "
   "sibling signature; (BIND) each constant reaches its consumer in the right slot (minimize -> line_search -> "
   "DCSRCH / dcsrch; eps_SY -> update_lbfgs_matrices / filter -> is_update_X_and_G); structural faithfulness of "
   "the iteration: (ARGNAME) no crossed argument slots at any internal call, (DIRECTION) d = subspace point - x from "
